@@ -424,6 +424,9 @@ func (s *sim) run() {
 // in reference mode) ---------------------------------------------------
 
 func poolGetHook(fresh *hooks.Printer) *hooks.Printer {
+	if freeMode {
+		return fresh // whatever the real pool handed out
+	}
 	t := curTask()
 	if t == nil {
 		refEnv.refGets++
@@ -451,6 +454,9 @@ func poolGetHook(fresh *hooks.Printer) *hooks.Printer {
 }
 
 func poolPutHook(p *hooks.Printer) bool {
+	if freeMode {
+		return false // let the real pool have it
+	}
 	t := curTask()
 	if t == nil {
 		refEnv.refPuts++
